@@ -737,6 +737,15 @@ func CompareOutput(out []byte, info *SourceInfo) Rec {
 	return r
 }
 
+func safelyBytes(fn func() []byte) (out []byte) {
+	defer func() {
+		if recover() != nil {
+			out = nil
+		}
+	}()
+	return fn()
+}
+
 // corpusFiles lists the .go files of GOROOT/src (behind a symlink) and of the vendored corpus.
 func corpusFiles(extra string) []string {
 	files := []string{}
@@ -769,7 +778,7 @@ func corpusFiles(extra string) []string {
 }
 
 func cmdCorpus(args []string) {
-	// usage: corpus <out.ndjson> <stats.json> <extra corpus dir or ""> <sample n, 0 = all> <shard i> <of n> <with trees for the model: every k-th file, 0 = none>
+	// usage: corpus <out.ndjson> <stats.json> <extra corpus dir or ""> <sample n, 0 = all> <shard i> <of n> <with trees for the model: every k-th file, 0 = none> [variant: C13|C14|C15]
 	tw := NewTraceWriter(args[0])
 	n, _ := strconv.Atoi(args[3])
 	shard, _ := strconv.Atoi(args[4])
@@ -840,6 +849,27 @@ func cmdCorpus(args []string) {
 		h[0].Light = every == 0 || id%every != 0 || len(src) > 60000
 		if !h[0].Light {
 			tw.Stats["files_compared_with_model"]++
+		}
+		if len(args) > 7 && args[7] != "" && info.Known != "" {
+			continue // a file that triggers a known finding of C01 is no reference for the variants
+		}
+		if len(args) > 7 && args[7] != "" {
+			// program-level variant: the unchanged execution first (its renderings are the reference), then the variant
+			hv, vi := MakeVariant(args[7], h, seedFromEnv()*7919+int64(i))
+			baseF := safelyBytes(func() []byte { return RunHistory(h, false) })
+			baseR := safelyBytes(func() []byte { return RunHistory(h, true) })
+			if baseF == nil || baseR == nil || !bytes.HasPrefix(baseF, []byte("nil\n")) || !bytes.HasPrefix(baseR, []byte("nil\n")) {
+				tw.Stats["variant_base_not_renderable"]++ // (a known finding of C01, or a translator gap: nothing to compare with)
+				continue
+			}
+			vi.BaseStat, vi.BaseOut, vi.BaseRaw = "nil", baseF[4:], baseR[4:]
+			hv[0].Variant = vi
+			if vi.N == 0 && args[7] != "C14" {
+				tw.Stats["variant_without_injection"]++
+				continue
+			}
+			tw.Stats["variant_injections"] += vi.N
+			h = hv
 		}
 		ReplayHistory(tw, id, h)
 		tw.Stats["declarations"] += len(info.Decls)
